@@ -83,7 +83,7 @@ func TestC13(t *testing.T) {
 // ---- C07 (merge tier) --------------------------------------------------------
 
 var c07Cfg = SGenCfg{RFs: []int{2, 3, 3}, MinOps: 3, MaxOps: 14, FaultPct: 25, Blocks: 16, FillPct: 70,
-	W: map[string]int{"write": 38, "snapshot": 10, "rebuildnew": 22, "remove": 8, "nodedrop": 4, "read": 6, "sync": 2, "addwrite": 4, "addrace": 4}}
+	W: map[string]int{"write": 38, "snapshot": 10, "rebuildnew": 22, "remove": 8, "nodedrop": 4, "read": 6, "sync": 2, "addwrite": 4, "addrace": 4, "staleboot": 4}}
 
 func TestC07(t *testing.T) {
 	runStackProperty(t, "C07", "TestC07", func(rt *rapid.T) SProgram { return GenSProgram(rt, c07Cfg) },
@@ -105,7 +105,7 @@ func TestC16Controller(t *testing.T) {
 // ---- C10 (promotion clause) ------------------------------------------------------
 
 var c10StackCfg = SGenCfg{RFs: []int{2, 3, 3}, MinOps: 4, MaxOps: 18, FaultPct: 30, Blocks: 8, SlowFaults: true, MaxSlow: 2,
-	W: map[string]int{"write": 50, "readd": 20, "promote": 6, "remove": 6, "nodedrop": 4, "read": 4, "sync": 2}}
+	W: map[string]int{"write": 50, "readd": 20, "promote": 6, "remove": 6, "nodedrop": 4, "read": 4, "sync": 2, "staleboot": 3}}
 
 // TestC10Promotion — a promoted replica reports the source's count; all RW replicas agree.
 func TestC10Promotion(t *testing.T) {
